@@ -143,6 +143,7 @@ type peerInfo struct {
 	scopes   []string
 	joinedAt int // index of the join op
 	leftAt   int // index of the leave / oversize op, -1 if none
+	ts       string
 	oversize bool
 }
 
@@ -167,9 +168,15 @@ func runScenario(k *hubkit.Kit, c *Case, dist map[string]int) map[uint64]*peerIn
 			if o.Slow {
 				buf = 4096
 			}
-			p := k.JoinBuf(o.N, c.Topic, path, o.Scopes, newDigest(), buf)
-			peers[o.N] = &peerInfo{p: p, scopes: o.Scopes, joinedAt: i, leftAt: -1}
+			tt, pth := c.Topic+o.TS, path+o.TS
+			p := k.JoinBuf(o.N, tt, pth, o.Scopes, newDigest(), buf)
+			peers[o.N] = &peerInfo{p: p, scopes: o.Scopes, joinedAt: i, leftAt: -1, ts: o.TS}
 			order = append(order, p)
+			if p.Refused != "" && o.TS != "" {
+				dist["join:other-session-id-refused"]++
+				peers[o.N].leftAt = i // never in: nothing it sends counts
+				continue
+			}
 			if p.Refused != "" {
 				c.Discard = "join-refused-" + p.Refused
 				return peers
@@ -270,7 +277,7 @@ func runScenario(k *hubkit.Kit, c *Case, dist map[string]int) map[uint64]*peerIn
 	c.Seen = nil
 	for _, p := range order {
 		pi := peers[p.Name]
-		s := Seen{N: p.Name, Scopes: pi.scopes, Frames: []FrameObs{}}
+		s := Seen{N: p.Name, Scopes: pi.scopes, Frames: []FrameObs{}, TS: pi.ts, Refused: p.Refused}
 		for _, f := range p.Frames() {
 			fi := f.Info.(finfo)
 			fo := FrameObs{MT: f.MT, Syms: []uint64{}, Bad: fi.bad}
@@ -284,6 +291,8 @@ func runScenario(k *hubkit.Kit, c *Case, dist map[string]int) map[uint64]*peerIn
 		}
 		ended, byServer, how := p.Ended()
 		switch {
+		case p.Refused != "":
+			s.End, s.How = 2, "refused: "+p.Refused
 		case pi.oversize:
 			s.End, s.How = 2, "oversize: "+how
 		case ended && pi.leftAt < 0:
@@ -546,6 +555,10 @@ func oracle(c Case, idx int, peers map[uint64]*peerInfo, out *ChildOut) {
 				o, ok := sent[it.ID]
 				if !ok || o.N != it.Sender || o.Seq != it.Seq {
 					viol("alien-record", fmt.Sprintf("reader %d received record id %d sender %d seq %d that nobody sent", s.N, it.ID, it.Sender, it.Seq))
+					continue
+				}
+				if peers[o.N].ts != pi.ts {
+					viol("cross-topic", fmt.Sprintf("reader %d of session %q received record id %d sent by connection %d of session %q", s.N, c.Topic+pi.ts, it.ID, o.N, c.Topic+peers[o.N].ts))
 					continue
 				}
 				if o.Size > maxMessage {
